@@ -433,8 +433,8 @@ impl CheckImpl for C12 {
     }
     fn units(&self, tier: Tier, _seed: u64) -> u64 {
         match tier {
-            Tier::Quick => 32_000 / BATCH,
-            Tier::Thorough => 160_000 / BATCH,
+            Tier::Quick => 48_000 / BATCH,
+            Tier::Thorough => 320_000 / BATCH,
         }
     }
     fn run_unit(&mut self, tier: Tier, seed: u64, unit: u64, acc: &mut Acc, viols: &mut Vec<Viol>) {
